@@ -548,7 +548,101 @@ func TestSetConcurrent(t *testing.T) {
 	})
 }
 
+// ---- a health mark racing with the removal / replacement of the same host
+
+type raceCase struct {
+	Mark  string `json:"mark"`  // healthy, unhealthy
+	Other string `json:"other"` // remove, replaceall, readd
+	Iters int    `json:"iters"`
+}
+
+func checkMarkRace(c raceCase) *verdict {
+	for i := 0; i < c.Iters; i++ {
+		stay := host.NewWithType(addrOf(0), host.TypeMain)
+		victim := host.NewWithType(addrOf(1), host.TypeMain)
+		set := host.NewSet(stay, victim)
+		if c.Mark == "healthy" {
+			set.MarkHostUnhealthy(victim)
+		}
+		var fresh *host.Host
+		start := make(chan struct{})
+		var wg sync.WaitGroup
+		wg.Add(2)
+		go func() {
+			defer wg.Done()
+			<-start
+			if c.Mark == "healthy" {
+				set.MarkHostHealthy(victim)
+			} else {
+				set.MarkHostUnhealthy(victim)
+			}
+		}()
+		go func() {
+			defer wg.Done()
+			<-start
+			switch c.Other {
+			case "remove":
+				set.Remove(host.NewWithType(addrOf(1), host.TypeMain))
+			case "replaceall":
+				set.ReplaceAll([]*host.Host{host.NewWithType(addrOf(0), host.TypeMain)})
+			default:
+				fresh = host.NewWithType(addrOf(1), host.TypeMain)
+				set.Add(fresh)
+			}
+		}()
+		close(start)
+		wg.Wait()
+		// quiescent: the usable view must be exactly the healthy current members
+		got := set.Healthy()
+		inAll := map[*host.Host]bool{}
+		for _, h := range set.All() {
+			inAll[h] = true
+		}
+		for _, h := range got {
+			if !inAll[h] {
+				return &verdict{"race-removed-host-usable", fmt.Sprintf("iteration %d: Mark%s(victim) raced with %s: Healthy() reports %s which is no longer a member", i, c.Mark, c.Other, h)}
+			}
+		}
+		for h := range inAll {
+			found := false
+			for _, g := range got {
+				if g == h {
+					found = true
+				}
+			}
+			if h.IsHealthy() && !found {
+				return &verdict{"race-healthy-member-dropped", fmt.Sprintf("iteration %d: Mark%s(victim) raced with %s: the healthy member %s is missing from Healthy()", i, c.Mark, c.Other, h)}
+			}
+		}
+	}
+	return nil
+}
+
+func TestMarkRace(t *testing.T) {
+	rapid.Check(t, func(t *rapid.T) {
+		c := raceCase{Mark: rapid.SampledFrom([]string{"healthy", "healthy", "unhealthy"}).Draw(t, "mark"),
+			Other: rapid.SampledFrom([]string{"remove", "replaceall", "readd"}).Draw(t, "other"), Iters: 40000}
+		if vh.Thorough() {
+			c.Iters = 200000
+		}
+		if v := checkMarkRace(c); v != nil {
+			vh.Fail(t, vh.Failure{Property: prop, Part: "markrace", Signature: v.sig, Message: v.msg, Case: c})
+		}
+		vh.Rec().Case("markrace", true, vh.JSON(c))
+		vh.Rec().ClassN("markrace", "raced_pairs", int64(c.Iters))
+		vh.Rec().Sample("markrace", true, func() interface{} { return c })
+	})
+}
+
 func init() {
+	vh.RegisterReplay("markrace", func(t *testing.T, raw json.RawMessage) {
+		var c raceCase
+		json.Unmarshal(raw, &c)
+		c.Iters = 600000
+		if v := checkMarkRace(c); v != nil {
+			vh.Fail(t, vh.Failure{Property: prop, Part: "markrace", Signature: v.sig, Message: v.msg, Case: c})
+		}
+	})
 	vh.RegisterReplay("set", func(t *testing.T, raw json.RawMessage) {
 		var c setCase
 		if err := json.Unmarshal(raw, &c); err != nil {
